@@ -12,10 +12,17 @@ LEVEL_TEXT = ("Theorems (Coq, all inputs, over the reals, for every uniform stre
               "evaluate the integrand only at points of the region (Miser's sub-regions are nested) and integrate a constant c to exactly V*c; the result of every integrator is a "
               "function of (arguments, stream) only: Miser's counter iran starts at 0 in every top-level call and plain MC has no state, and with init = 0 (the only value Integrate_MC "
               "passes) Vegas overwrites every static it later reads — in particular the grid after the first Rebin is the uniform grid i/nd whatever the previous grid was — so its result "
-              "is independent of the incoming static state; Vegas maps u in (0,1) on any increasing grid ending in 1 to a point inside the region; on the uniform grid every weight "
-              "equals the Jacobian, so the first iteration integrates a constant exactly; the 2-D/3-D front ends build the region {x1,y1,(z1),x2,y2,(z2)} and pass args[0],args[1],(args[2]). "
-              "NOT theorems: 'within six standard errors' (probabilistic) and Vegas' exactness on constants over all five iterations (later iterations run on a refined grid; holds to "
-              "rounding only) — these are evaluated on the implementation with fixed seeds (S4). The Gallina model (all three integrators in full, including Vegas' five iterations with "
+              "is independent of the incoming static state; Vegas maps u in (0,1) on any increasing grid in [0,1] to a point inside the region (C14_vegas_point_inside), and the grid "
+              "stays such a grid for ever: Rebin with ANY positive weights r[0..nd) and rc = their mean comes to an end, reads r and the grid row only inside the nd entries in use "
+              "and returns an increasing row in [0,1] ending in 1 (C14_vegas_rebin_keeps_grid, by induction over the bins with the invariant dr = r[0]+..+r[k-1] - i*rc), the refinement "
+              "step of an iteration never fails and maps grids to grids whatever was accumulated (C14_vegas_refine_keeps_grid), hence over any number of iterations two integrands that "
+              "agree on the region give the same value, statics and stream position (C14_vegas_iterations_points_inside, invariant vlive_ok over the cells, the odometer kg and the "
+              "refinements), and the whole call Integrate_MC(..., \"Vegas\") from whatever statics, in 1..10 dimensions with budgets >= 2, looks at the integrand only inside the region "
+              "(C14_vegas_points_inside: the initialisation with init = 0 establishes the invariant: uniform grid, nd in 2..50, ng >= 1); "
+              "the 2-D/3-D front ends build the region {x1,y1,(z1),x2,y2,(z2)} and pass args[0],args[1],(args[2]). "
+              "NOT theorems: 'within six standard errors' (probabilistic); Vegas' exactness on constants (on the uniform grid of the first iteration every weight equals the Jacobian, "
+              "later iterations run on a refined grid whose bins and strata do not coincide: exact to rounding only, see K-C14-1) — these are evaluated on the implementation with fixed "
+              "seeds (S4); over the reals pow(x, 1.5) is exp(1.5 ln x) > 0, so the theorems on the refinement do not speak about weights that are 0 or NaN in doubles. The Gallina model (all three integrators in full, including Vegas' five iterations with "
               "grid refinement) is extracted and run on the stream the library draws under the seed hook: results, numbers of evaluations and evaluation points agree bit for bit, and call "
               "histories are replayed on both sides. Histories may contain integrations that their integrand brings to an end early (a C++ exception thrown from the n-th evaluation, caught by "
               "the caller): the model function integrate_mc_throwing gives the statics such a call leaves behind; theorems: every call of a history, ended early or not, leaves well-formed statics "
@@ -24,7 +31,9 @@ LEVEL_TEXT = ("Theorems (Coq, all inputs, over the reals, for every uniform stre
               "In the model a region is a value: no call changes the vector of its caller. On the implementation the harness hands several calls of a case the very same std::vector object (a caller "
               "that builds its box once), compares that object with what the caller put into it at every evaluation of the integrand and after every call (run to its end or not), and runs the observed "
               "call from inside the integrand of an integration under way (on a box of its own or on the outer call's vector object), comparing each of its values with the fresh-process value. "
-              "Cases cover descending limits on any subset of axes, boxes up to 1e9 widths away from the origin, every coincidence of a limit of one axis with a limit of another axis in the three front ends, "
+              "Cases cover descending limits on any subset of axes, boxes up to 1e9 widths away from the origin, limits that are nearly equal relative to their own size (an axis of admissible width "
+              "1e5 .. 1e13 widths away from the origin: (upper - lower)/max(|lower|,|upper|) on a geometric ladder 1e-5 .. 1e-13, on one, several or all axes, for every method, through the 2-D/3-D "
+              "front ends and in histories), every coincidence of a limit of one axis with a limit of another axis in the three front ends, "
               "and the default arguments of Integrate_MC, and the corners of the range of widths (every axis at 1e-3, every axis at 1e3, all but one, alternating: volumes 1e-18..1e18 in six dimensions). "
               "The integrators draw from Sample_Uniform of the Statistics facility; the model function sample_uniform mirrors it (theorems: it lies in [a,b) and is the draw itself for the limits 0, 1; "
               "draws leave no statics behind, so the observed call after any sequence of integrations and draws returns what it returns in a fresh process: C14_observed_call_forgets_events). "
@@ -143,10 +152,29 @@ def corner_widths(rng, d, corner):
     return w
 
 
-def rand_region(rng, d, plain=False, rev=0.0, far=0.0, corner=None):
+REL_LADDER = tuple(10.0 ** -k for k in range(5, 14))
+
+
+def near_limits(rng, w, rel):
+    """limits (a, b) of an axis of width about w (1e-3..1e3) whose two limits are nearly equal RELATIVE to their own size: (b - a) / max(|a|, |b|) is about
+    rel (a rung of REL_LADDER, 1e-5 .. 1e-13), i.e. the axis lies w / rel away from the origin (up to 1e16; the property bounds the widths, not the offset).
+    Both limits are doubles, at least some 400 doubles lie between them, the width b - a is exact; the offset is a power of two, a round decimal or arbitrary"""
+    off = w / rel
+    kind = rng.choice(["pow2", "dec", "any", "any"])
+    if kind == "pow2": off = 2.0 ** round(math.log2(off))
+    elif kind == "dec": off = float(10 ** round(math.log10(off)))
+    else: off *= rng.uniform(0.7, 1.4)
+    a = rng.choice([-1.0, 1.0]) * off
+    b = a + w
+    if b == a or not (0.5 * w <= abs(b - a) <= 2 * w): a = math.copysign(w / rel, a); b = a + w
+    return a, b
+
+
+def rand_region(rng, d, plain=False, rev=0.0, far=0.0, corner=None, near=None):
     """{first limits..., second limits...}: widths 1e-3..1e3 (log-uniform; corner: all from the ends of that range, see corner_widths), offset;
     rev = probability of an axis with descending limits (the integral then changes sign with every such axis); far = probability of an axis that
-    lies 1e3..1e9 widths away from the origin (at most 1e6)"""
+    lies 1e3..1e9 widths away from the origin (at most 1e6); near = (rel, axes): the limits of these axes are nearly equal relative to their size
+    (see near_limits), the others as usual"""
     lo, hi = [], []
     cw = corner_widths(rng, d, corner) if corner else None
     for j in range(d):
@@ -156,6 +184,7 @@ def rand_region(rng, d, plain=False, rev=0.0, far=0.0, corner=None):
             a = rng.choice([0.0, 1.0, -1.0, rng.uniform(-10, 10), rng.uniform(-1e3, 1e3), -w / 2])
             if far and rng.random() < far: a = rng.choice([-1.0, 1.0]) * min(w * 10 ** rng.uniform(3, 9), 1e6)
         b = a + w
+        if near and j in near[1] and not plain: a, b = near_limits(rng, w, near[0])
         if rev and not plain and rng.random() < rev: a, b = b, a
         lo.append(a); hi.append(b)
     return lo + hi
@@ -406,6 +435,18 @@ def generate(rng, tier):
                     region = rand_region(rng, d, rev=0.15, far=1.0); fam = rand_fam(rng, d, kind)
                     cs.append(Case("mc " + call_text(method, rng.randrange(2 ** 32), rng.choice(budgets[:4]), region, fam) + " # " + fam.ann(),
                                    ("mc", method, f"dim{d}", kind, "far-offset")))
+    # limits that are nearly equal relative to their own size: an axis of an admissible width (1e-3..1e3) lying 1e5 .. 1e13 widths away from the origin, so that
+    # (upper - lower) / max(|lower|, |upper|) descends a geometric ladder 1e-5 .. 1e-13 (a comparison of the limits with a relative tolerance, or arithmetic on the
+    # limits that cancels, shows only there; the far-offset cases above stop at 1e-9): on one axis, on several, on all; every method, every rung
+    for rep in range(3 if big else 1):
+        for method in MC:
+            for rel in REL_LADDER:
+                for kind in ("const", rng.choice(["sepexp", "gauss", "poly"])):
+                    d = rng.randint(1, 6)
+                    axes = rng.choice([[rng.randrange(d)], [rng.randrange(d)], rng.sample(range(d), rng.randint(1, d)), list(range(d))])
+                    region = rand_region(rng, d, rev=0.15, near=(rel, axes)); fam = rand_fam(rng, d, kind)
+                    cs.append(Case("mc " + call_text(method, rng.randrange(2 ** 32), rng.choice(budgets[:4]), region, fam) + " # " + fam.ann(),
+                                   ("mc", method, f"dim{d}", kind, "near-equal-limits", f"near-equal-limits-{rel:.0e}")))
     # arguments left to their defaults: Integrate_MC(f, region, ncalls) (method = "Vegas"), Integrate_MC(f, region) (ncalls = 10000)
     for m, n in (("dflt", 0), ("dflt", 0), ("dflt", 0), ("dflt2", 10000), ("dflt2", 10000)) + ((("dflt", 0), ("dflt2", 10000)) * 4 if big else ()):
         d = rng.randint(1, 4) if m == "dflt" else rng.randint(1, 3)
@@ -479,7 +520,8 @@ def generate(rng, tier):
             if k == nh and kind == "corner" and not (method == "Miser" and d <= 3): kind = rng.choice(["sepexp", "gauss", "poly", "const"])
             # Miser: with a flat pre-sample no dimension qualifies for the bisection and the counter iran picks it: the calls on which that counter shows
             if k == nh and method == "Miser" and rng.random() < 0.5: d = rng.choice([2, 3]); kind = "corner"
-            region = rand_region(rng, d, plain=(kind == "corner" and rng.random() < 0.5), rev=0.15, corner=(rng.choice(WIDTH_CORNERS) if rng.random() < 0.1 else None))
+            region = rand_region(rng, d, plain=(kind == "corner" and rng.random() < 0.5), rev=0.15, corner=(rng.choice(WIDTH_CORNERS) if rng.random() < 0.1 else None),
+                                 near=((rng.choice(REL_LADDER), [rng.randrange(d)]) if rng.random() < 0.12 else None))
             fam = rand_fam(rng, d, kind)
             ncall = rng.choice([200, 300, 500, 700, 1000, 2000]) if rng.random() < 0.7 else structured_budget(rng, 200, 4500 if big else 2500, d)
             if ih < nlong and k < nh: ncall = rng.choice([60, 100, 128, 200, 300, 500])
@@ -614,6 +656,13 @@ def generate(rng, tier):
                 for corner in ("small", "large", "alternating"):
                     region = rand_region(rng, d, rev=0.1, corner=corner)
                     cs.append(front_case(rng, op, method, [(region[j], region[j + d]) for j in range(d)], rng.choice([1000, 2000]), ("width-corner", "width-corner-" + corner)))
+    # the 2-D / 3-D front ends with limits of one axis nearly equal relative to their size (the ladder above)
+    for rep in range(3 if big else 1):
+        for method in MC:
+            for op, d in (("front2d", 2), ("front3d", 3)):
+                for rel in rng.sample(REL_LADDER[:4], 1) + rng.sample(REL_LADDER[4:], 2):
+                    region = rand_region(rng, d, rev=0.1, near=(rel, [rng.randrange(d)]))
+                    cs.append(front_case(rng, op, method, [(region[j], region[j + d]) for j in range(d)], rng.choice([1000, 2000]), ("near-equal-limits", f"near-equal-limits-{rel:.0e}")))
     # the 2-D / 3-D front ends: anisotropic offset regions, asymmetric integrand
     for _ in range(12 if big else 4):
         for method in MC:
